@@ -153,6 +153,15 @@ def run(ctx):
     cases.append(SEP.join(["node 0", "spawn", "spawn", "register 616c696365 $0", "send $0 a 6372617368", "whereis 616c696365",
                            "register 616c696365 $1", "whereis 616c696365", "sendname 616c696365 i 1", "events $1", "registered"]))
 
+    # two monitors of one process on the same target: removing one leaves the other in force (either one)
+    for drop in (0, 1):
+        cases.append(SEP.join(["node 0", "spawn", "spawn", "monitor $0 $1", "monitor $0 $1", "demonitor $0 $1 #%d" % drop, "send $1 a 6372617368",
+                               "events $0", "events $1", "count"]))
+    # a monitor and a link on the same pair; a process registered under two names that ends
+    cases.append(SEP.join(["node 0", "spawn", "spawn", "link $0 $1", "monitor $0 $1", "unlink $0 $1", "send $1 a 6372617368", "events $0", "count"]))
+    cases.append(SEP.join(["node 0", "spawn", "spawn", "register 616c696365 $0", "register 626f62 $0", "send $0 a 6372617368", "whereis 616c696365",
+                           "whereis 626f62", "registered", "register 626f62 $1", "whereis 626f62", "sendname 626f62 i 1", "events $1"]))
+
     def classify(c, impl):
         out = []
         for s in c.split(SEP)[1:]:
